@@ -10,6 +10,7 @@ re-evaluated.
 Mode (payload args.mode): "c01" | "c02" | "c03".  Scope: the templates and edits listed in TEMPLATE / EDITS below.
 """
 import json
+import re
 import os
 import shutil
 import subprocess
@@ -160,6 +161,11 @@ def leaf_batch():
 def leaf_rate():
     CALLS.append("leaf_rate")
     return "rate=%r" % (RATE_D,)
+
+def reader():
+    # evaluated on its own, after the pipeline: the path it loads was committed by an earlier evaluation
+    CALLS.append("reader")
+    return "read:%s" % (dds.load("/c/plain"),)
 
 def leaf_order():
     CALLS.append("leaf_order")
@@ -483,6 +489,16 @@ for p in __ALL__:
         sigs[p] = st.fetch_paths([p])[p]
     except BaseException as e:
         sigs[p] = None
+if opts.get("reader"):
+    saved_calls = list(pipe.CALLS); pipe.CALLS.clear()
+    try:
+        rv = dds.keep("/c/reader", pipe.reader)
+        sigs["/c/reader"] = api._store().fetch_paths(["/c/reader"])["/c/reader"]
+        if rv != "read:constant":
+            sigs["/c/reader"] = "WRONG VALUE %r" % (rv,)
+    except BaseException as e:
+        sigs["/c/reader"] = "ERROR %s: %s" % (type(e).__name__, str(e)[:160])
+    pipe.CALLS[:] = saved_calls
 print(json.dumps({"value": repr(v), "calls": list(pipe.CALLS), "sigs": sigs, "error": err}))
 '''.replace("__ALL__", repr(ALL))
 
@@ -659,10 +675,12 @@ def main():
         else:  # c03
             d = os.path.join(tmp, "base")
             materialise(d)
-            base = run(d, "dds", {"store": "memory"})
+            base = run(d, "dds", {"store": "memory", "reader": True})
             evals += 1
             if base.get("error"):
                 note(None, "base evaluation failed: %s" % base["error"])
+            if not re.fullmatch(r"[0-9a-f]{64}", str(base["sigs"].get("/c/reader"))):
+                note(None, "reader of a path committed by an earlier evaluation: %s" % base["sigs"].get("/c/reader"))
             variants = [
                 ("PYTHONHASHSEED=0", {}, {"PYTHONHASHSEED": "0"}, None, d),
                 ("PYTHONHASHSEED=1", {}, {"PYTHONHASHSEED": "1"}, None, d),
@@ -681,6 +699,10 @@ def main():
             ln = os.path.join(tmp, "through_symlink")
             os.symlink(d, ln)
             variants.append(("package reached through a symbolic link", {"store": "memory"}, {}, None, ln))
+            real_store = os.path.join(tmp, "volume", "real_store")
+            os.makedirs(real_store)
+            os.symlink(os.path.join(tmp, "volume"), os.path.join(tmp, "mnt"))
+            variants.append(("local store whose directories are reached through a symbolic link", {"store": "local", "store_dir": os.path.join(tmp, "mnt", "real_store")}, {}, None, d))
             d2 = os.path.join(tmp, "elsewhere", "deep", "copy")
             os.makedirs(os.path.dirname(d2))
             shutil.copytree(d, d2, ignore=shutil.ignore_patterns("_int", "_data", "__pycache__"))
@@ -688,7 +710,8 @@ def main():
             for (vname, opts, env, cwd, where) in variants:
                 o = dict(opts)
                 o.setdefault("store", "memory")
-                if o["store"] in ("local", "local_cache"):
+                o["reader"] = True
+                if o["store"] in ("local", "local_cache") and "store_dir" not in o:
                     o["store_dir"] = os.path.join(tmp, "st_%d" % evals)
                 r = run(where, "dds", o, env, cwd)
                 evals += 1
@@ -723,7 +746,7 @@ def main():
     finally:
         shutil.rmtree(tmp, ignore_errors=True)
     print(json.dumps({
-        "scope": {"c01": "a __main__ script through 5 edits; the pipeline on the memory / noop / cache-wrapped local store through 2 edits; %d single edits of a 30-keep pipeline (each dependency kind), value vs plain execution and signature sensitivity" % len(EDITS), "c02": "%d single edits + restart + revert: re-execution only inside the dependency cone" % len(EDITS), "c03": "15 environment variants (hash seeds, cwd, location, symlink, 5 store kinds, debug, graph export, reload, history) + pinned signatures of the corpus"}[mode],
+        "scope": {"c01": "a __main__ script through 5 edits; the pipeline on the memory / noop / cache-wrapped local store through 2 edits; %d single edits of a 30-keep pipeline (each dependency kind), value vs plain execution and signature sensitivity" % len(EDITS), "c02": "%d single edits + restart + revert: re-execution only inside the dependency cone" % len(EDITS), "c03": "16 environment variants (hash seeds, cwd, location, symlinked package, symlinked store, 5 store kinds, debug, graph export, reload, history), each with a second evaluation that loads a path committed by the first, + pinned signatures of the corpus"}[mode],
         "evaluations": evals, "distinct_nontrivial": evals, "rule": "one case per edit (c01/c02) or per environment variant (c03), each in fresh interpreter processes",
         "samples": samples, "violations": violations,
         "known_hits": ["bounded:%s (%d cases, e.g. %s)" % (c, len(w), w[0][:170]) for c, w in sorted(known.items())],
